@@ -11,6 +11,7 @@ package main
 
 import (
 	"fmt"
+	"go/constant"
 	"go/token"
 	"go/types"
 	"strings"
@@ -196,4 +197,255 @@ func ruleFloatWidth(p *Prog, r *Report, rule string, rels ...string) {
 	if n == 0 {
 		r.OK(rule, "no strconv.ParseFloat in "+strings.Join(rels, ", "), "-", "nothing to decide")
 	}
+}
+
+// FIXFIT (C16): a fixed-point path selected by a guard holds every value the guard lets in.
+//
+// Instances: in package meta, every conversion of a floating-point value to a sized integer type whose operand is
+// (a rounding of) x·c for a constant c, at a place dominated by an explicit upper guard `x < K` / `x <= K` on the same
+// x. The guard is what the author offers as the reason the conversion is safe, so K·c must fit the target type:
+// 1000 mm in hundredths is 100000, which a uint16 wraps (800 mm is then written as "144.64mm" and decodes to
+// another focal length).
+func ruleFixFit(p *Prog, r *Report) {
+	r.Explain("FIXFIT: in package meta, wherever a floating-point value x, scaled by a constant c and possibly rounded, is converted to a sized integer type at a place dominated by an upper guard x < K or x <= K, the product K*c fits that type - otherwise the values between the type's range and the guard wrap, and the text written for them decodes to a different value.")
+	pk := p.SSAPkg("meta")
+	if pk == nil {
+		r.Fatal("unresolved anchor: package meta")
+		return
+	}
+	stripF := func(v ssa.Value) ssa.Value {
+		for i := 0; i < 4; i++ {
+			cv, ok := v.(*ssa.Convert)
+			if !ok || !isFloat(cv.Type()) || !isFloat(cv.X.Type()) {
+				return v
+			}
+			v = cv.X
+		}
+		return v
+	}
+	n := 0
+	for _, f := range p.AllLibFns() {
+		if f.Pkg != pk || f.Blocks == nil {
+			continue
+		}
+		eachInstr(f, func(b *ssa.BasicBlock, _ int, in ssa.Instruction) {
+			cv, ok := in.(*ssa.Convert)
+			if !ok || !isFloat(cv.X.Type()) {
+				return
+			}
+			tb, ok := cv.Type().Underlying().(*types.Basic)
+			if !ok || tb.Info()&types.IsInteger == 0 {
+				return
+			}
+			var maxT float64
+			switch tb.Kind() {
+			case types.Uint8:
+				maxT = 255
+			case types.Int8:
+				maxT = 127
+			case types.Uint16:
+				maxT = 65535
+			case types.Int16:
+				maxT = 32767
+			case types.Uint32:
+				maxT = 4294967295
+			case types.Int32:
+				maxT = 2147483647
+			default:
+				return
+			}
+			v := stripF(cv.X)
+			if c, ok := v.(*ssa.Call); ok {
+				if sc := c.Call.StaticCallee(); sc != nil && sc.Pkg != nil && sc.Pkg.Pkg.Path() == "math" && len(c.Call.Args) == 1 {
+					v = stripF(c.Call.Args[0])
+				}
+			}
+			scale := 1.0
+			if bo, ok := v.(*ssa.BinOp); ok && bo.Op == token.MUL {
+				if k, ok := floatConst(bo.Y); ok {
+					scale, v = k, stripF(bo.X)
+				} else if k, ok := floatConst(bo.X); ok {
+					scale, v = k, stripF(bo.Y)
+				}
+			}
+			if scale <= 0 {
+				return
+			}
+			for _, cd := range condsAt(b) {
+				bo, ok := cd.V.(*ssa.BinOp)
+				if !ok {
+					continue
+				}
+				op := bo.Op
+				var other ssa.Value
+				var k float64
+				if kk, ok := floatConst(bo.Y); ok {
+					other, k = stripF(bo.X), kk
+				} else if kk, ok := floatConst(bo.X); ok {
+					other, k = stripF(bo.Y), kk
+					op = map[token.Token]token.Token{token.LSS: token.GTR, token.GTR: token.LSS, token.LEQ: token.GEQ, token.GEQ: token.LEQ}[op]
+				} else {
+					continue
+				}
+				if other != v {
+					continue
+				}
+				if !cd.True {
+					op = map[token.Token]token.Token{token.LSS: token.GEQ, token.GEQ: token.LSS, token.LEQ: token.GTR, token.GTR: token.LEQ}[op]
+				}
+				if op != token.LSS && op != token.LEQ {
+					continue
+				}
+				n++
+				key := fmt.Sprintf("%s | %s of a value guarded by %s %g and scaled by %g", fnName(f), tb.Name(), op, k, scale)
+				at := p.posStr(cv.Pos())
+				bound := k * scale
+				fits := bound <= maxT || (op == token.LSS && bound <= maxT+1)
+				if fits {
+					r.OK("FIXFIT", key, at, fmt.Sprintf("at most %g, which %s holds", bound, tb.Name()))
+				} else {
+					r.Bad("FIXFIT", key, at, fmt.Sprintf("the guard lets values up to %g through, scaled that is %g, and %s holds %g at most: the values in between wrap, so the text written for them decodes to a different value", k, bound, tb.Name(), maxT))
+				}
+			}
+		})
+	}
+	r.Extra("fixfit_guarded_conversions", n)
+}
+
+func floatConst(v ssa.Value) (float64, bool) {
+	c, ok := v.(*ssa.Const)
+	if !ok || c.Value == nil {
+		return 0, false
+	}
+	switch c.Value.Kind() {
+	case constant.Int, constant.Float:
+		f, _ := constant.Float64Val(constant.ToFloat(c.Value))
+		return f, true
+	}
+	return 0, false
+}
+
+// UTSET (C16): a text decoder that reports success has set its receiver.
+//
+// UnmarshalText(MarshalText(v)) == v has to hold whatever the receiver held before (encoding/json decodes into
+// existing values). Obligation per UnmarshalText / UnmarshalJSON / UnmarshalBinary method of the library: every
+// return whose error may be nil is reached only through a store into the receiver (or a call that is handed the
+// receiver). A path that returns nil without storing - "0/0" taken for "nothing to do" - leaves the previous value
+// in place, so the zero value does not survive the round trip into a used variable.
+func ruleUtSet(p *Prog, r *Report) {
+	r.Explain("UTSET: in every UnmarshalText, UnmarshalJSON and UnmarshalBinary method of the library, each return whose error can be nil is reached only after a store through the receiver (or a call that receives it): a decoder that accepts a text without assigning leaves the variable's previous value, so the value encoded does not come back when the target was in use. An empty input is exempt only if the method tests its length first and nothing else.")
+	e := p.E3()
+	names := map[string]bool{"UnmarshalText": true, "UnmarshalJSON": true, "UnmarshalBinary": true}
+	for _, f := range libMethodsNamed(p, names) {
+		if f.Blocks == nil || len(f.Params) < 2 {
+			continue
+		}
+		recv := f.Params[0]
+		if _, ok := recv.Type().Underlying().(*types.Pointer); !ok {
+			continue
+		}
+		key := fnName(f) + " | every successful return has stored the receiver"
+		at := p.posStr(f.Pos())
+		sets := map[*ssa.BasicBlock]bool{}
+		var derived func(v ssa.Value, d int) bool
+		derived = func(v ssa.Value, d int) bool {
+			if d > 6 {
+				return false
+			}
+			switch x := v.(type) {
+			case *ssa.Parameter:
+				return x == recv
+			case *ssa.FieldAddr:
+				return derived(x.X, d+1)
+			case *ssa.IndexAddr:
+				return derived(x.X, d+1)
+			case *ssa.Slice:
+				return derived(x.X, d+1)
+			case *ssa.ChangeType:
+				return derived(x.X, d+1)
+			case *ssa.Convert:
+				return derived(x.X, d+1)
+			}
+			return false
+		}
+		eachInstr(f, func(b *ssa.BasicBlock, _ int, in ssa.Instruction) {
+			switch x := in.(type) {
+			case *ssa.Store:
+				if derived(x.Addr, 0) {
+					sets[b] = true
+				}
+			case ssa.CallInstruction:
+				for _, a := range x.Common().Args {
+					if derived(a, 0) {
+						sets[b] = true
+					}
+				}
+			}
+		})
+		bad := ""
+		seen := map[*ssa.BasicBlock]bool{f.Blocks[0]: true}
+		st := []*ssa.BasicBlock{f.Blocks[0]}
+		for len(st) > 0 && bad == "" {
+			b := st[len(st)-1]
+			st = st[:len(st)-1]
+			if sets[b] {
+				continue
+			}
+			if len(b.Instrs) > 0 {
+				if rt, ok := b.Instrs[len(b.Instrs)-1].(*ssa.Return); ok && len(rt.Results) > 0 {
+					ev, eb := spilledResult(rt.Results[len(rt.Results)-1], b)
+					if !e.definitelyNonNil(ev, eb) && !onlyEmptyInput(b, f) {
+						bad = fmt.Sprintf("the return at %s can report success without the receiver having been assigned: the variable keeps its previous value, so a value whose text takes this path (the zero value, typically) does not come back from a round trip into a variable that was in use", p.posStr(rt.Pos()))
+					}
+					continue
+				}
+			}
+			for _, s := range b.Succs {
+				if !seen[s] {
+					seen[s] = true
+					st = append(st, s)
+				}
+			}
+		}
+		if bad != "" {
+			r.Bad("UTSET", key, at, bad)
+		} else {
+			r.OK("UTSET", key, at, "every return with a possibly nil error is reached through a store into the receiver or a call that is handed it")
+		}
+	}
+}
+
+// onlyEmptyInput: block b is reached under exactly one condition, len(param) == 0 (or its mirror forms).
+func onlyEmptyInput(b *ssa.BasicBlock, f *ssa.Function) bool {
+	cs := condsAt(b)
+	if len(cs) != 1 {
+		return false
+	}
+	bo, ok := cs[0].V.(*ssa.BinOp)
+	if !ok {
+		return false
+	}
+	isLen := func(v ssa.Value) bool {
+		c, ok := v.(*ssa.Call)
+		if !ok {
+			return false
+		}
+		bi, ok := c.Call.Value.(*ssa.Builtin)
+		return ok && bi.Name() == "len" && len(c.Call.Args) == 1 && c.Call.Args[0] == ssa.Value(f.Params[1])
+	}
+	k, okc := constInt(bo.Y)
+	if !isLen(bo.X) || !okc {
+		return false
+	}
+	switch {
+	case bo.Op == token.EQL && k == 0 && cs[0].True:
+		return true
+	case bo.Op == token.NEQ && k == 0 && !cs[0].True:
+		return true
+	case bo.Op == token.LSS && k == 1 && cs[0].True:
+		return true
+	case bo.Op == token.GTR && k == 0 && !cs[0].True:
+		return true
+	}
+	return false
 }
